@@ -164,10 +164,49 @@ func main() {
 				}
 			})
 			guard(&out.RealPanic, func() {
-				for it := seq.NewIntegerIter(in.N); it.MoveNext(); {
+				it := seq.NewIntegerIter(in.N)
+				for it.MoveNext() {
 					out.Real = append(out.Real, E{Op: "visit", K: it.Current().Key})
 					if len(out.Real) > 64 {
 						panic("runaway loop")
+					}
+				}
+				for j := 0; j < 300; j++ { // an exhausted iterator stays exhausted
+					if it.MoveNext() {
+						panic("MoveNext true after exhaustion")
+					}
+				}
+				// sized, unsigned and named integer types: same keys, of the operand's type
+				if in.N >= 0 && in.N < 100 {
+					type myInt int16
+					var a, b, c []int
+					it8 := seq.NewIntegerIter(uint8(in.N))
+					for it8.MoveNext() {
+						var k uint8 = it8.Current().Key
+						a = append(a, int(k))
+					}
+					for j := 0; j < 300; j++ {
+						if it8.MoveNext() {
+							panic("uint8: MoveNext true after exhaustion")
+						}
+					}
+					for it := seq.NewIntegerIter(int64(in.N)); it.MoveNext(); {
+						var k int64 = it.Current().Key
+						b = append(b, int(k))
+					}
+					for it := seq.NewIntegerIter(myInt(in.N)); it.MoveNext(); {
+						var k myInt = it.Current().Key
+						c = append(c, int(k))
+					}
+					for _, l := range [][]int{a, b, c} {
+						if len(l) != len(out.Real) {
+							panic("typed integer iterator: different number of iterations")
+						}
+						for j := range l {
+							if l[j] != out.Real[j].K {
+								panic("typed integer iterator: different keys")
+							}
+						}
 					}
 				}
 			})
